@@ -123,6 +123,24 @@ Definition decode_poll_response (v : json) : result (bytes * bytes * bytes) :=
   | _ => Err
   end.
 
+(* The same decoder with the error of a failure status made visible.  For a status other than "", "client match" and
+   "no match" the Go code returns errors.New(message.Status) TOGETHER with the (defaulted) NAT type and the relay URL:
+   the failure reason the broker wrote is a field of the message and reaches the caller as the text of that error
+   (proxy/lib logs it).  PRReason carries that text; PRErr is every other error (invalid JSON, wrong member type,
+   missing status, match without offer), for which the Go code returns empty strings. *)
+Inductive presult := PROk (r : bytes * bytes * bytes) | PRReason (status nat relay : bytes) | PRErr.
+Definition decode_poll_response_reason (v : json) : presult :=
+  match unmarshal poll_resp_schema v with
+  | Some [VStr status; VStr offer; VStr nat; VStr relay] =>
+      let nat' := if beq nat [] then NAT_UNKNOWN else nat in
+      if beq status [] then PRErr
+      else if beq status CLIENT_MATCH then
+        (if beq offer [] then PRErr else PROk (offer, nat', relay))
+      else if beq status NO_MATCH then PROk ([], nat', relay)
+      else PRReason status nat' relay
+  | _ => PRErr
+  end.
+
 (* DecodePollResponse: refuses a relay URL *)
 Definition decode_poll_response_legacy (v : json) : result (bytes * bytes) :=
   match decode_poll_response v with
